@@ -132,7 +132,8 @@ class Ctx:
         cmd += [module + ".tla"]
         t0 = time.time()
         env = dict(os.environ)
-        env.setdefault("JAVA_TOOL_OPTIONS", "-Xss256m")
+        # bound the heap: up to 16 trace-validation JVMs run side by side (the JVM default is 25% of RAM each)
+        env.setdefault("JAVA_TOOL_OPTIONS", "-Xss256m -Xmx3g" if workers == 1 else "-Xss256m -Xmx12g")
         r = subprocess.run(cmd, cwd=d, capture_output=True, text=True, env=env)
         out = r.stdout + r.stderr
         res = dict(name=name, module=module, wall=round(time.time() - t0, 2), out=out, rc=r.returncode,
